@@ -149,6 +149,15 @@ where
             return Ok(None);
         }
 
+        // Promoting and demoting members is not supported yet, reject these actions instead of
+        // crashing on input a remote peer can choose.
+        if matches!(
+            auth_message.action(),
+            AuthGroupAction::Promote { .. } | AuthGroupAction::Demote { .. }
+        ) {
+            return Err(GroupError::UnsupportedAction(auth_message.id()));
+        }
+
         groups_y = AuthGroup::process(groups_y, auth_message).map_err(GroupError::AuthGroup)?;
 
         let events = auth_message_to_group_event(&groups_y, auth_message);
@@ -252,4 +261,7 @@ where
 
     #[error(transparent)]
     Store(#[from] StoreError),
+
+    #[error("auth message {0} contains a group action which is not supported yet")]
+    UnsupportedAction(OperationId),
 }
